@@ -119,7 +119,7 @@ static double dbl_of_bits(const char* s) { uint64_t b = hx(s); double d; memcpy(
 static uint64_t bits_of_dbl(double d) { uint64_t b; memcpy(&b, &d, 8); return b; }
 
 /* error statistics "in the element type's arithmetic" */
-struct errstat { size_t viol; size_t first; double maxerr; size_t outside; };
+struct errstat { size_t viol; size_t first; double maxerr; size_t outside; double amax; };
 
 static double effective_bound(int ty, const void* data, size_t n, int mode, double absb, double rel, double* minv, double* maxv)
 {
@@ -148,12 +148,12 @@ static double effective_bound(int ty, const void* data, size_t n, int mode, doub
 
 static void err_stats(int ty, const void* ori, const void* dec, size_t n, double e, double mn, double mx, struct errstat* st)
 {
-	st->viol = 0; st->first = (size_t)-1; st->maxerr = 0; st->outside = 0;
+	st->viol = 0; st->first = (size_t)-1; st->maxerr = 0; st->outside = 0; st->amax = 0;
 	int es = elem_size(ty);
 	for (size_t i = 0; i < n; i++) {
 		double err; int bad;
-		if (ty == SZ_FLOAT) { float a = ((const float*)ori)[i], b = ((const float*)dec)[i]; float d = fabsf(a - b); err = d; bad = !((double)d <= e); if (b < (float)mn || b > (float)mx) st->outside++; }
-		else if (ty == SZ_DOUBLE) { double a = ((const double*)ori)[i], b = ((const double*)dec)[i]; double d = fabs(a - b); err = d; bad = !(d <= e); if (b < mn || b > mx) st->outside++; }
+		if (ty == SZ_FLOAT) { float a = ((const float*)ori)[i], b = ((const float*)dec)[i]; float d = fabsf(a - b); if (fabsf(a) > st->amax) st->amax = fabsf(a); err = d; bad = !((double)d <= e); if (b < (float)mn || b > (float)mx) st->outside++; }
+		else if (ty == SZ_DOUBLE) { double a = ((const double*)ori)[i], b = ((const double*)dec)[i]; double d = fabs(a - b); if (fabs(a) > st->amax) st->amax = fabs(a); err = d; bad = !(d <= e); if (b < mn || b > mx) st->outside++; }
 		else {
 			long double a, b;
 			if (is_signed(ty)) { int64_t z = 0, y = 0; memcpy(&z, (const char*)ori + i * es, es); memcpy(&y, (const char*)dec + i * es, es); if (es < 8) { int sh = 64 - 8 * es; z = (int64_t)((uint64_t)z << sh) >> sh; y = (int64_t)((uint64_t)y << sh) >> sh; } a = z; b = y; }
@@ -180,13 +180,14 @@ static void do_rt(int argc, char** a, int with_recon)
 	unsigned char* bytes = SZ_compress_args(ty, data, &outSize, mode, absb, rel, pwr, cr[0], cr[1], cr[2], cr[3], cr[4]);
 	int input_modified = memcmp(copy, data, n * es) != 0;
 	if (bytes == NULL) { printf("st=null out=%zx n=%zx\n", outSize, n); free(data); free(copy); return; }
+	int lc = outSize >= 4 ? is_lossless_compressed_data(bytes, outSize) : -1;   /* -1 unwrapped, 0 zlib, 1 zstd */
 	size_t dn = computeDataLength(dr[0], dr[1], dr[2], dr[3], dr[4]);
 	void* dec = SZ_decompress(ty, bytes, outSize, dr[0], dr[1], dr[2], dr[3], dr[4]);
-	if (dec == NULL) { printf("st=dec-null out=%zx n=%zx\n", outSize, n); free(bytes); free(data); free(copy); return; }
+	if (dec == NULL) { printf("st=dec-null out=%zx lc=%d n=%zx\n", outSize, lc, n); free(bytes); free(data); free(copy); return; }
 	double mn, mx; double e = effective_bound(ty, copy, n, mode, absb, rel, &mn, &mx);
 	struct errstat st; err_stats(ty, copy, dec, n < dn ? n : dn, e, mn, mx, &st);
-	printf("st=ok out=%zx n=%zx dn=%zx viol=%zx first=%zx maxerr=%" PRIx64 " e=%" PRIx64 " outside=%zx inmod=%d",
-	       outSize, n, dn, st.viol, st.first == (size_t)-1 ? 0 : st.first, bits_of_dbl(st.maxerr), bits_of_dbl(e), st.outside, input_modified);
+	printf("st=ok out=%zx lc=%d n=%zx dn=%zx viol=%zx first=%zx maxerr=%" PRIx64 " e=%" PRIx64 " outside=%zx inmod=%d amax=%" PRIx64,
+	       outSize, lc, n, dn, st.viol, st.first == (size_t)-1 ? 0 : st.first, bits_of_dbl(st.maxerr), bits_of_dbl(e), st.outside, input_modified, bits_of_dbl(st.amax));
 	if (with_recon) {
 		printf(" recon=");
 		if (n == 0) printf("_");
